@@ -4,7 +4,7 @@
    (inside the file, begin <= end + 1 and well-bracketing are); what is proved
    for all inputs is listed below (well-bracketed events, event tables, offsets), the rest is covered by the per-Next() correspondence and the exactness runs. *)
 From JS Require Import Base Bytes Scanner ScanRun C12Proofs EventSafe.
-From JS Require ExtentSafe InFile OrderSafe.
+From JS Require ExtentSafe InFile OrderSafe GrammarSafe.
 From Coq Require Import Lia.
 From JS Require LexemeEvents ScannerProg.
 Open Scope Z_scope.
@@ -67,6 +67,19 @@ Theorem C12_lexemes_come_in_text_order_without_overlap :
   forall data tbl, let '(ls, _, _) := scan_case data tbl in OrderSafe.chain_ok (-1) ls.
 Proof. exact OrderSafe.lexemes_of_a_file_are_ordered. Qed.
 
+(* well-bracketed per directive: for EVERY input and every oracle table, the kinds of the lexemes
+   of a file form a word of
+     ( Keyword Parameter* Annotation? ContextOpen* Body? | ContextOpen | ContextClose )*
+   (Body = Schema | Json | Text | Enum), given as the four-state automaton GrammarSafe.delta:
+   a parameter only after the keyword or a parameter, the annotation only after those, a body
+   only inside a directive that has none yet.  Automaton states per (scanner state, top of the
+   return-state stack) inferred from the regenerated program, checked on every path, checker
+   proved sound. *)
+Theorem C12_lexeme_kinds_are_well_bracketed_per_directive :
+  forall data tbl, let '(ls, _, _) := scan_case data tbl in
+    GrammarSafe.dfa_run GrammarSafe.DN (List.map lk ls) <> None.
+Proof. exact GrammarSafe.lexeme_kinds_of_a_file_follow_the_grammar. Qed.
+
 (* for EVERY input: every lexeme lies inside the file (0 <= Begin, End <= size - 1) - provided
    the schema-length oracle (jsight-schema-core) never claims a schema longer than the rest of the
    file; that contract is asserted on every answer the harness records.  Every event position of
@@ -118,6 +131,7 @@ Print Assumptions C12_lexeme_events_are_well_bracketed.
 Print Assumptions C12_queued_events_always_process.
 Print Assumptions C12_lexeme_extents_are_never_inverted.
 Print Assumptions C12_lexemes_come_in_text_order_without_overlap.
+Print Assumptions C12_lexeme_kinds_are_well_bracketed_per_directive.
 Print Assumptions C12_lexemes_lie_inside_the_file.
 Print Assumptions C12_lexeme_values_are_defined.
 Print Assumptions C12_event_offsets_partial.
